@@ -142,7 +142,9 @@ func (s *Session) consume() {
 				continue
 			}
 			s.mu.Lock()
-			s.errs = append(s.errs, e)
+			if len(s.errs) < 10000 { // an error flood must not exhaust memory; 10000 witnesses are plenty
+				s.errs = append(s.errs, e)
+			}
 			s.mu.Unlock()
 			if errors.Is(e, fsnotify.ErrEventOverflow) {
 				select {
